@@ -13,9 +13,9 @@ BINARY = ["add", "sub", "mul", "div_s"]
 
 
 def gen(c, max_ops=8):
-    n = c.int(2, 4)
+    n = c.int(1, 4)  # (length-one leading axes: rank-raising broadcasts that add nothing but an axis)
     two_d = c.bool()
-    shape = (n, c.int(2, 3)) if two_d else (n,)
+    shape = (n, c.int(2, 3)) if two_d else (max(n, 2),)
     stmts = []
     shapes = [shape]  # shape of each value; value 0 is the input
 
@@ -75,6 +75,10 @@ def gen(c, max_ops=8):
             if len(s) == 0:
                 continue
             i = c.int(0, s[0] - 1)
+            if c.chance(1, 3):  # a length-one slice: a view that keeps the rank (later broadcast against lower-rank values of the same row shape)
+                stmts.append(["sl", a, i])
+                shapes.append((1,) + tuple(s[1:]))
+                continue
             stmts.append(["idx", a, i])
             shapes.append(s[1:])
         elif k == 8:  # reduction
@@ -90,7 +94,7 @@ def gen(c, max_ops=8):
             s = shapes[a]
             if len(s) == 0:
                 continue
-            stmts.append(["dot", a])
+            stmts.append(["dot", a, c.int(0, 2)])
             shapes.append(s)
         elif k == 10:  # broadcast a lower-rank value against a higher-rank one
             a = pick()
@@ -98,7 +102,8 @@ def gen(c, max_ops=8):
             if not cands:
                 continue
             b = cands[c.int(0, len(cands) - 1)]
-            stmts.append(["b", BINARY[c.int(0, 2)], a, b])
+            opn = BINARY[c.int(0, 2)]
+            stmts.append(["b", opn, b, a] if c.bool() else ["b", opn, a, b])  # the lower-rank operand on either side
             shapes.append(shapes[a])
         else:  # concatenate with itself / another of the same shape along axis 0 (rank >= 1)
             a = pick()
@@ -179,12 +184,16 @@ def run(prog, x, ns, raw=False):
                 r = ns.reshape(a, onp.shape(a))
         elif t == "idx":
             r = vals[st[1]][st[2]]
+        elif t == "sl":
+            r = vals[st[1]][st[2]:st[2] + 1]
         elif t == "sum":
             r = ns.sum(vals[st[1]], axis=st[2])
         elif t == "dot":
             a = vals[st[1]]
             m = onp.shape(a)[0]
-            r = ns.dot(_const((m, m), 1), a)
+            form = st[2] if len(st) > 2 else 0
+            K_ = _const((m, m), 1)
+            r = ns.dot(K_, a) if form == 0 else (ns.matmul(K_, a) if form == 1 else K_ @ a)
         elif t == "shared":
             a = vals[st[1]]
             b = ns.sin(a)
